@@ -5164,3 +5164,45 @@ def cli18(ctx):
             r.report("CLI-18|run_sequence|print-%s" % what, fn_loc(b, prn.get("ln")), b.path,
                      "a failed stage is run with `%s` but its error is printed against `%s`: the group / line index inside the error counts in the list that was run, so with a `!` / `~` filter the message quotes another rule (or the formatter indexes out of bounds)" % (a1, a2))
     return r
+
+
+# ---------------------------------------------------------------- SYN-9: what an alias string may not contain is what can be escaped
+
+def syn9(ctx):
+    """In an alias rule a replacement string is any run of characters that are not special; a special character is written
+    with an escape. AliasLexer::is_valid_char (what may stand in a string) and the char-escape arm of get_unicode_escape
+    (what can be escaped) list the same characters -- the source says so itself ("Make sure this matches with char
+    escapes"). A special character missing from the first list is swallowed into the string: `$ > ∅` then prints `∅` for
+    every syllable boundary while its documented synonym `$ > *` deletes them."""
+    r = RuleResult("SYN-9", "AliasLexer: the characters is_valid_char excludes are exactly those of the char-escape arm of get_unicode_escape (and `*` / `∅` are both among them)", floor=1)
+    lib = ctx.lib
+    iv = ctx.fn(lib, "asca::alias::lexer::AliasLexer::is_valid_char")
+    ue = ctx.fn(lib, "asca::alias::lexer::AliasLexer::get_unicode_escape")
+
+    def chars_in(node):
+        out = set()
+        for y in hirq.walk(node):
+            if y["e"] == "lit" and y.get("lk") == "char":
+                out.add(y["lit"])
+        for q in hirq.walk_pats(node):
+            if q.get("p") == "lit" and q.get("lk") == "char":
+                out.add(q["lit"])
+        return out
+    excluded = chars_in(iv.hir["body"])
+    escapes = set()
+    for m in hirq.matches(ue):
+        for arm in m["arms"]:
+            cs = {q["lit"] for q in hirq.walk_pats(arm["pat"]) if q.get("p") == "lit" and q.get("lk") == "char"}
+            if "\\" in cs and len(cs) > len(escapes):
+                escapes = cs
+    if len(escapes) < 5 or len(excluded) < 5:
+        raise AnchorMissing("SYN-9: the character lists of is_valid_char (%d) / get_unicode_escape (%d) were not found" % (len(excluded), len(escapes)))
+    missing = sorted(escapes - excluded)
+    extra = sorted(excluded - escapes)
+    ok = not missing and not extra and {"*", "∅"} <= excluded
+    r.inst("AliasLexer: is_valid_char excludes %s; the escape arm lists %s" % ("".join(sorted(excluded)), "".join(sorted(escapes))), fn_loc(iv), "ok" if ok else "report")
+    if not ok:
+        r.report("SYN-9|is_valid_char", fn_loc(iv), iv.path,
+                 "is_valid_char and the char-escape arm of get_unicode_escape disagree (%s): a special character that is_valid_char lets through is read as part of a replacement string instead of as its token -- with `∅` missing, `$ > ∅` prints a `∅` at every syllable boundary while `$ > *` deletes them"
+                 % "; ".join(x for x in ("only escapable: " + " ".join(missing) if missing else "", "only excluded: " + " ".join(extra) if extra else "") if x))
+    return r
